@@ -836,7 +836,7 @@ func runProxyConc(ctx *core.Ctx, pc proxyConcCase) {
 	var want []byte
 	var auths []string
 	for _, h := range pc.Hosts {
-		want = append(want, outcomeOf(deny, direct, siteOracle{}, false, h))
+		want = append(want, outcomeOf("allow", deny, direct, siteOracle{}, false, h))
 		auths = append(auths, core.HexS(h))
 	}
 	ctx.Case(fmt.Sprintf("proxyconc:%s|%s|%s|%d|%d|%d", strings.Join(pc.Deny, ","), strings.Join(pc.Direct, ","), strings.Join(pc.Hosts, ","), pc.Clients, pc.Requests, pc.Seed), pc.Clients >= 2)
